@@ -400,6 +400,13 @@ func genSumCase(r *Rng, prop string) []Op {
 	var itemSpecs []string
 	pat := []string{"*.wsp", "*.wsp", "f?.wsp", "none*.wsp"}[r.Intn(4)]
 	itemPat := []string{"i*", "i1", "n/*", "zz*", "*"}[r.Intn(5)]
+	// C10 is about the sum that succeeds: half of its cases have nothing that makes it fail
+	// (patterns that match, equal layouts, a selection the layout has)
+	clean := prop == "C10" && r.Bool()
+	if clean {
+		pat = []string{"*.wsp", "f?.wsp", "f[0-2].wsp"}[r.Intn(3)]
+		itemPat = []string{"i*", "i1", "n/*", "i[12]"}[r.Intn(4)]
+	}
 	if itemPat == "*" {
 		// "n" matches too and holds no whisper file of its own
 		defer func() {}()
@@ -416,7 +423,9 @@ func genSumCase(r *Rng, prop string) []Op {
 		for f := 0; f < n; f++ {
 			name := fmt.Sprintf("f%d.wsp", f)
 			lay := g.lay
-			if r.Chance(1, 15) {
+			if clean {
+				// equal layouts throughout
+			} else if r.Chance(1, 15) {
 				lay = genLayout(r, false)
 				mismatch = true
 			} else if f > 0 && r.Chance(1, 8) {
@@ -465,7 +474,7 @@ func genSumCase(r *Rng, prop string) []Op {
 	if pat == "none*.wsp" || itemPat == "*" || itemPat == "zz*" {
 		// one failure at a time (source and destination are read concurrently)
 		w = g.winAll()
-	} else if oneFailure {
+	} else if oneFailure || clean {
 		w = g.winValid()
 	}
 	common := fmt.Sprintf("items=%s itempat=%s srcpat=%s", is, itemPat, pat)
